@@ -25,7 +25,7 @@ var R = hx.NewRecorder("C15", "cases = (endpoint kind: GMSSL client | GMSSL-only
 	"oracle = Handshake() returns (quiescence of the in-memory transport turns waiting into EOF; a read-after-EOF counter catches spinning), returns an error for every true deviation, HandshakeComplete stays false, no panic; legal variations (fragmented or coalesced messages, unknown ticket) must still succeed; non-trivial = deviation applied after at least one valid message or in the first message; distinct by hash of the plan")
 
 func TestMain(m *testing.M) {
-	R.Require("junk_certificate_verify", "jcv_vers:300", "ecdhe_ske", "hello_ext_sweep", "dev:big_record", "replay_deep:gmclient", "replay_deep:tlsclient", "replay_deep:gmserver", "replay_deep:tlsserver", "replay_deep:autoserver", "replay_control", "replay:omit_msg", "replay:hello_ext", "replay:swap_msgs", "hello_vector_lengths", "dev:cke_ciphertext_byte", "dev:cert_list", "tls_resumption_deviation", "dev:inner_len", "dev:trailing", "dev:alert_flood", "inner_length_sweep", "peer_pressed_on_after_alert", "endpoint:gmclient", "endpoint:gmserver", "endpoint:autoserver", "endpoint:tlsserver", "endpoint:tlsclient", "vers_sweep_done", "dev:omit", "dev:repeat", "dev:retype", "dev:reorder", "dev:truncate", "dev:len_field", "dev:split", "dev:coalesce",
+	R.Require("junk_certificate_verify", "jcv_vers:300", "ecdhe_ske", "hello_ext_sweep", "dev:big_record", "replay_deep:gmclient", "replay_deep:tlsclient", "replay_deep:gmserver", "replay_deep:tlsserver", "replay_deep:autoserver", "replay_control", "replay:omit_msg", "replay:hello_ext", "replay:swap_msgs", "hello_vector_lengths", "dev:cke_ciphertext_byte", "dev:cert_list", "serverhello_version_sweep", "tls_resumption_deviation", "dev:inner_len", "dev:trailing", "dev:alert_flood", "inner_length_sweep", "peer_pressed_on_after_alert", "endpoint:gmclient", "endpoint:gmserver", "endpoint:autoserver", "endpoint:tlsserver", "endpoint:tlsclient", "vers_sweep_done", "dev:omit", "dev:repeat", "dev:retype", "dev:reorder", "dev:truncate", "dev:len_field", "dev:split", "dev:coalesce",
 		"dev:oversize", "dev:ccs_early", "dev:appdata_early", "dev:alert_fatal", "dev:unknown_record", "dev:close", "dev:record_overflow", "replay_perturbed", "legal_must_succeed", "cke_1byte", "hostile_suites")
 	for d := 0; d <= 5; d++ {
 		R.Require(fmt.Sprintf("depth:%d", d))
@@ -1237,9 +1237,11 @@ func replayAgainstW(ep string, stream []byte, seed string) (hsErr error, pn *hx.
 		peerW.CloseWrite()
 		// drain what the endpoint says so that it never blocks on us
 		buf := make([]byte, 4096)
+		lastWritten = lastWritten[:0]
 		for {
 			n, err := peerW.Read(buf)
 			wrote += n
+			lastWritten = append(lastWritten, buf[:n]...)
 			if err != nil {
 				return
 			}
@@ -1248,6 +1250,75 @@ func replayAgainstW(ep string, stream []byte, seed string) (hsErr error, pn *hx.
 	<-d[0]
 	<-d[1]
 	return hsErr, pn, conn.ConnectionState().HandshakeComplete, wrote
+}
+
+var lastWritten []byte // what the endpoint of the last replayAgainstW call put on the wire
+
+// ServerHello.server_version swept over 0x0000..0x0400 (quick: the neighbours of every defined version).
+// (a) TLS-mode client (RSA key exchange recording, so that nothing but its own version check stands between the ServerHello
+// and its ClientKeyExchange): after a ServerHello naming a version outside what it offered (0x0301..0x0303) it must answer
+// with an alert and put no further handshake message on the wire - a client that carries on can be led to completion by
+// a server that plays along. (b) GMSSL client against the keyed scripted GM/T 0024 server, which does play along: with any
+// version other than 0x0101 in the ServerHello the handshake must not complete.
+func TestC15_ServerHelloVersionSweep(t *testing.T) {
+	p := tlsx.GetPKI()
+	var versions []uint16
+	if hx.Thorough() {
+		for v := 0; v <= 0x0400; v++ {
+			versions = append(versions, uint16(v))
+		}
+		versions = append(versions, 0x7f12, 0xfeff, 0xffff)
+	} else {
+		versions = []uint16{0x0000, 0x0001, 0x00ff, 0x0100, 0x0101, 0x0102, 0x0103, 0x01ff, 0x0200, 0x0201, 0x02ff, 0x0300, 0x0301, 0x0302, 0x0303, 0x0304, 0x0305, 0x03ff, 0x0400, 0x0401, 0xfeff, 0xffff}
+	}
+	var n int64
+	rec := record("tlsrsa")
+	for _, v := range versions {
+		stream := append([]byte{}, rec.s2c...)
+		if stream[0] != 22 || stream[5] != 2 {
+			t.Fatalf("harness: recording does not start with a ServerHello")
+		}
+		stream[9], stream[10] = byte(v>>8), byte(v)
+		hsErr, pn, complete, _ := replayAgainstW("tlsclient_rsa", stream, fmt.Sprint("shv", v))
+		if pn != nil {
+			t.Fatalf("TLS client PANICKED on a ServerHello with version %04x: %v\n%s", v, pn.Val, pn.Stack)
+		}
+		if hsErr == nil || complete {
+			t.Fatalf("TLS client completed a handshake from a replayed flight (ServerHello version %04x)", v)
+		}
+		if v < 0x0301 || v > 0x0303 {
+			recs := wire.SplitRecords(lastWritten)
+			for i, r := range recs {
+				if i > 0 && (r[0] == 22 || r[0] == 20 || r[0] == 23) {
+					t.Fatalf("TLS client (offering 0301..0303) carried on after a ServerHello with version %04x: record %d of its output is type %d (handshake type %d); only an alert may follow its ClientHello", v, i, r[0], r[5])
+				}
+			}
+		}
+		n++
+	}
+	R.Case(true, hx.HashKey("shv", "tls"), "serverhello_version_sweep", "endpoint:tlsclient")
+	for _, v := range versions {
+		for _, suite := range []uint16{tlsx.GMECCSM4CBCSM3, tlsx.GMECCSM4GCMSM3} {
+			vv := v
+			plan := &rgmssl.Plan{Out: func(step string, o rgmssl.Out) []rgmssl.Out {
+				if step == "ServerHello" && len(o.Data) > 6 {
+					d := append([]byte{}, o.Data...)
+					d[4], d[5] = byte(vv>>8), byte(vv)
+					o.Data = d
+				}
+				return []rgmssl.Out{o}
+			}}
+			seed := fmt.Sprint("shvgm", v, suite)
+			cc := tlsx.GMClient(p, "c"+seed)
+			cc.CipherSuites = []uint16{suite}
+			r := tlsx.RunAgainstScriptedServer(cc, rgmssl.ServerOpts{ID: p.ServerIdentity()}, plan, seed, []byte("x"))
+			desc := fmt.Sprintf("GMSSL client, scripted GM/T 0024 server naming version %04x in its ServerHello (and carrying on) | endpoint: hs=%v | scripted peer: err=%v log=%v", v, r.GM.HSErr, r.PeerErr, r.Peer.Log)
+			judge(t, r, v == 0x0101, true, desc)
+			n++
+		}
+	}
+	R.Case(true, hx.HashKey("shv", "gm"), "serverhello_version_sweep", "endpoint:gmclient")
+	R.Subspace("ServerHello.server_version values (quick: neighbours of the defined versions; thorough: 0x0000..0x0400) x {TLS client by progress, GMSSL client x 2 suites by completion}", n, hx.Thorough())
 }
 
 // control: the unmodified recording must carry every endpoint kind deep into the handshake (up to the point where the
